@@ -164,6 +164,54 @@ Section Statements.
   Theorem c12_pad_to_keeps_first : forall M l,
     length (pad_to ginst M l) = M /\ somes (pad_to ginst M l) = firstn M l.
   Proof. intros. split; [apply pad_to_length|apply somes_pad_to]. Qed.
+
+  (* ---- round 4: frames with MORE matched centroids than the M instance rows (a centroid that is detected
+     but has no labelled instance of its own is still matched to the nearest labelled instance of its frame,
+     so a frame can have more matches than rows).
+     The walk in closed form, for ANY flat (sample, instance) list: turn i reads at `gt_pointer all i` = the
+     number of entries of ALL earlier samples (every match counted: the pointer moves by the TRUE count),
+     takes counts[i] entries and emits exactly M rows (NaN-padded or cut). *)
+  Theorem c12_gt_walk_closed_form : forall M (all : list (nat * ginst)) n,
+    gt_parse ginst M all 0%nat 0%nat n = map (gt_turn ginst M all) (seq 0%nat n)
+    /\ (forall i, length (gt_turn ginst M all i) = M).
+  Proof. intros. split; [apply gt_parse_closed_form|intros; apply gt_turn_length]. Qed.
+
+  Theorem c12_gt_pointer_advances_by_true_count : forall (all : list (nat * ginst)) i,
+    gt_pointer ginst all 0%nat = 0%nat
+    /\ gt_pointer ginst all (S i) = (gt_pointer ginst all i + gt_count ginst all i)%nat.
+  Proof. intros. split; [apply gt_pointer_0|apply gt_pointer_step]. Qed.
+
+  (* the rows emitted for sample b are exactly M, and their non-NaN part is a PREFIX of sample b's OWN
+     matches (row b with image b) — for every centroid table, i.e. whatever the other samples' counts are,
+     larger than M or not *)
+  Theorem c12_gt_walk_emits_own_prefix : forall M rows imgs b row img,
+    length rows = length imgs -> nth_error rows b = Some row -> nth_error imgs b = Some img ->
+    exists out, nth_error (gt_parse ginst M (gt_flat frame peak ginst gmatch 0%nat rows imgs) 0%nat 0%nat (length imgs)) b
+                = Some out
+                /\ length out = M
+                /\ somes out = firstn M (row_matches frame peak ginst gmatch img row)
+                /\ out = pad_to ginst M (row_matches frame peak ginst gmatch img row).
+  Proof. exact (gt_walk_emits_own_prefix frame peak ginst gmatch). Qed.
+
+  Theorem c12_gt_walk_independent_of_other_counts : forall M rows imgs rows' imgs' b b' row img,
+    length rows = length imgs -> length rows' = length imgs' ->
+    nth_error rows b = Some row -> nth_error imgs b = Some img ->
+    nth_error rows' b' = Some row -> nth_error imgs' b' = Some img ->
+    nth_error (gt_parse ginst M (gt_flat frame peak ginst gmatch 0%nat rows imgs) 0%nat 0%nat (length imgs)) b
+    = nth_error (gt_parse ginst M (gt_flat frame peak ginst gmatch 0%nat rows' imgs') 0%nat 0%nat (length imgs')) b'.
+  Proof. exact (gt_walk_independent_of_other_counts frame peak ginst gmatch). Qed.
+
+  (* the whole centroid-only batch: a frame with at least M matches (over-detection included) reports the
+     first M of its OWN matches, no padding, under its own indices — at any position, next to any batch-mates *)
+  Theorem c12_centroid_only_overdetecting_frame : forall mi M fs b s,
+    nth_error fs b = Some s ->
+    (M <= length (somes (map (gmatch (s_img frame s)) (kept peak value mi (detect (s_img frame s))))))%nat ->
+    exists row, nth_error (co_batch mi M fs) b
+                = Some (s_fidx frame s, s_vidx frame s, row,
+                        map Some (firstn M (somes (map (gmatch (s_img frame s))
+                                                       (kept peak value mi (detect (s_img frame s)))))))
+                /\ somes row = kept peak value mi (detect (s_img frame s)).
+  Proof. exact (centroid_only_overdetecting_frame frame peak detect value ginst gmatch). Qed.
 End Statements.
 
 Print Assumptions c12_split_by_sample.
@@ -189,6 +237,11 @@ Print Assumptions c12_centroid_only_permutation.
 Print Assumptions c12_centroid_only_indices.
 Print Assumptions c12_gt_peaks_split_by_sample.
 Print Assumptions c12_pad_to_keeps_first.
+Print Assumptions c12_gt_walk_closed_form.
+Print Assumptions c12_gt_pointer_advances_by_true_count.
+Print Assumptions c12_gt_walk_emits_own_prefix.
+Print Assumptions c12_gt_walk_independent_of_other_counts.
+Print Assumptions c12_centroid_only_overdetecting_frame.
 
 (* non-vacuity: a concrete mixed batch through the executable model *)
 Example ex_stream :
@@ -205,6 +258,56 @@ Example ex_centroid_only :
   = RGt [(7%nat, 0%nat, [Some 1%nat], [Some 1%nat; None]); (8%nat, 1%nat, [None], [None; None]);
          (9%nat, 0%nat, [Some 0%nat], [Some 0%nat; None])].
 Proof. vm_compute. reflexivity. Qed.
+
+(* an over-detecting frame in the MIDDLE of a batch (M = 2 instance rows, batch of 3, no max_instances):
+   frame 8 has four detected centroids — two labelled animals (instances 0, 1), one detected-but-unlabelled
+   centroid with the highest value (nearest labelled instance: 1) and one more (nearest: 0) — so four matches
+   for two rows: it reports its first two, and frames 7 and 9 keep their own rows *)
+Example ex_centroid_only_overdetection :
+  run (CGtM None 2%nat 3%nat
+         [(7%nat, 0%nat, [(0%nat, 1 # 2, Some 0%nat)]);
+          (8%nat, 0%nat, [(0%nat, 3 # 4, Some 0%nat); (1%nat, 9 # 10, Some 1%nat); (2%nat, 2 # 3, Some 1%nat);
+                          (3%nat, 1 # 3, Some 0%nat)]);
+          (9%nat, 1%nat, [(0%nat, 1 # 4, Some 1%nat); (1%nat, 1 # 5, Some 0%nat)])])
+  = RGt [(7%nat, 0%nat, [Some 0%nat; None; None; None], [Some 0%nat; None]);
+         (8%nat, 0%nat, [Some 0%nat; Some 1%nat; Some 2%nat; Some 3%nat], [Some 0%nat; Some 1%nat]);
+         (9%nat, 1%nat, [Some 0%nat; Some 1%nat; None; None], [Some 1%nat; Some 0%nat])].
+Proof. vm_compute. reflexivity. Qed.
+
+(* the same frames one by one, and with max_instances = 3 > M (top-3 by value of frame 8: ids 1, 0, 2) *)
+Example ex_centroid_only_overdetection_alone :
+  run (CGtM None 2%nat 1%nat
+         [(7%nat, 0%nat, [(0%nat, 1 # 2, Some 0%nat)]);
+          (8%nat, 0%nat, [(0%nat, 3 # 4, Some 0%nat); (1%nat, 9 # 10, Some 1%nat); (2%nat, 2 # 3, Some 1%nat);
+                          (3%nat, 1 # 3, Some 0%nat)]);
+          (9%nat, 1%nat, [(0%nat, 1 # 4, Some 1%nat); (1%nat, 1 # 5, Some 0%nat)])])
+  = RGt [(7%nat, 0%nat, [Some 0%nat], [Some 0%nat; None]);
+         (8%nat, 0%nat, [Some 0%nat; Some 1%nat; Some 2%nat; Some 3%nat], [Some 0%nat; Some 1%nat]);
+         (9%nat, 1%nat, [Some 0%nat; Some 1%nat], [Some 1%nat; Some 0%nat])].
+Proof. vm_compute. reflexivity. Qed.
+
+Example ex_centroid_only_overdetection_topk :
+  run (CGtM (Some 3%nat) 2%nat 3%nat
+         [(8%nat, 0%nat, [(0%nat, 3 # 4, Some 0%nat); (1%nat, 9 # 10, Some 1%nat); (2%nat, 2 # 3, Some 1%nat);
+                          (3%nat, 1 # 3, Some 0%nat)]);
+          (7%nat, 0%nat, []);
+          (9%nat, 1%nat, [(0%nat, 1 # 4, Some 1%nat); (1%nat, 1 # 5, Some 0%nat)])])
+  = RGt [(8%nat, 0%nat, [Some 1%nat; Some 0%nat; Some 2%nat], [Some 1%nat; Some 0%nat]);
+         (7%nat, 0%nat, [None; None; None], [None; None]);
+         (9%nat, 1%nat, [Some 0%nat; Some 1%nat; None], [Some 1%nat; Some 0%nat])].
+Proof. vm_compute. reflexivity. Qed.
+
+(* The theorems above separate the code's walk from one that moves its pointer by the count CLAMPED to M
+   (`gt_parse_clamped`, NOT the code): with three matches of sample 0 and M = 2, the clamped walk hands
+   sample 0's third match (12) to sample 1 as its first instance and sample 1 loses a row of its own —
+   `gt_parse` does not. *)
+Theorem c12_clamped_pointer_reads_batch_mates :
+  let all := [(0%nat, 10%nat); (0%nat, 11%nat); (0%nat, 12%nat); (1%nat, 20%nat); (1%nat, 21%nat)] in
+  gt_parse nat 2%nat all 0%nat 0%nat 2%nat = [[Some 10%nat; Some 11%nat]; [Some 20%nat; Some 21%nat]]
+  /\ gt_parse_clamped nat 2%nat all 0%nat 0%nat 2%nat = [[Some 10%nat; Some 11%nat]; [Some 12%nat; Some 20%nat]]
+  /\ gt_pointer nat all 1%nat = 3%nat.
+Proof. vm_compute. repeat split; reflexivity. Qed.
+Print Assumptions c12_clamped_pointer_reads_batch_mates.
 
 (* ================================================================== the per-frame size-matching factor
    (eff_scale) in a batch whose frames have DIFFERENT sizes (model C12/Scale.v, proofs C12/LemmasScale.v).
